@@ -715,6 +715,7 @@ theorem sim_step (s : St) (op : Op) (hi : Inv s) (hp : PB s) :
   | deldef k sc => exact (view_deldef s k sc).symm
   | setcell n v => exact (sim_setcell s hi hp n v).1
   | save => exact (sim_save s).1
+  | reopen => exact (sim_save s).1
   | observe => exact (sim_observe s).1
 
 /-- acceptance agrees too (SetDefinedName is not described by the list model) -/
@@ -735,6 +736,7 @@ theorem sim_accept (s : St) (op : Op) (hi : Inv s) (hp : PB s)
   | deldef k sc => exact absurd rfl (hop k sc []).2
   | setcell n v => exact (sim_setcell s hi hp n v).2
   | save => exact (sim_save s).2
+  | reopen => exact (sim_save s).2
   | observe => exact (sim_observe s).2
 
 theorem sim_run (s : St) (ops : List Op) (hi : Inv s) (hp : PB s) :
